@@ -788,7 +788,12 @@ def make_socket_stream(chunks, q, cls=None):
 
     def fake_socket(family=-1, kind=-1, *a, **k):
         import socket as _s
-        made.append(_FakeSock(chunks, dgram=(kind == _s.SOCK_DGRAM)))
+        dgram = (kind == _s.SOCK_DGRAM)
+        # (a datagram longer than the reader's buffer would be cut off by the operating system: such a piece is sent
+        # as several datagrams)
+        size = getattr(cls, 'BUF_SIZE', 4096)
+        pieces = [c[i:i + size] for c in chunks for i in range(0, max(len(c), 1), size)] if dgram else chunks
+        made.append(_FakeSock(pieces, dgram=dgram))
         return made[-1]
 
     # (the constructors reach the socket class through the name `socket` imported into pyais.stream - or, after a
@@ -957,6 +962,8 @@ TIME_SCALE = [1]        # histories may count time in fractions of a second (op 
 
 
 def show_time(x):
+    if isinstance(x, int) and not isinstance(x, bool):
+        return str(x * TIME_SCALE[0])
     d = _D(repr(float(x))) * TIME_SCALE[0]
     return str(int(d)) if d == d.to_integral_value() else 't?%r' % x
 
@@ -1053,7 +1060,11 @@ def run_tracker(ordered, ttl, ops):
         del evs[:]
         return ','.join(others + dels) + ']' + delta
 
-    def state():
+    quiet = [False]      # op z:1 - very long histories print the whole table only with the n_latest queries
+
+    def state(full=False):
+        if quiet[0] and not full:
+            return '{~%d}' % len(tr.tracks)
         return '{' + ' '.join(show_track(t) for t in tr.tracks) + '}'
 
     for k, op in enumerate(ops):
@@ -1067,6 +1078,8 @@ def run_tracker(ordered, ttl, ops):
         p = op.split(':')
         if p[0] == 't':
             CLOCK.t = float(p[1]) / TIME_SCALE[0]
+        elif p[0] == 'z':
+            quiet[0] = p[1] == '1'
         elif p[0] == 's':
             TIME_SCALE[0] = int(p[1])       # from here on clock values and time stamps are in units of 1/k second
         elif p[0] == 'l':
@@ -1089,7 +1102,7 @@ def run_tracker(ordered, ttl, ops):
             t = tr.pop_track(str(int(p[1])) if k % 2 else int(p[1]))       # (the MMSI may be given as str or int)
             out.append('p[%s%s %s' % (take(), 'N' if t is None else show_track(t), state()))
         elif p[0] == 'n':
-            out.append('n[%s] %s' % (' '.join(str(t.mmsi) for t in tr.n_latest_tracks(int(p[1]))), state()))
+            out.append('n[%s] %s' % (' '.join(str(t.mmsi) for t in tr.n_latest_tracks(int(p[1]))), state(full=True)))
         elif p[0] == 'u':
             try:
                 s = DEC._assemble_messages(unhx(p[1]))
@@ -1097,7 +1110,12 @@ def run_tracker(ordered, ttl, ops):
                 out.append('u%s %s' % (err(e), state()))
                 continue
             try:
-                tr.update(s, None if p[2] == 'N' else float(p[2]) / TIME_SCALE[0])
+                if p[2] != 'N' and TIME_SCALE[0] == 1 and p[2].lstrip('-').isdigit() and int(p[2]) > 2 ** 53:
+                    # (a time stamp beyond the integers a float can hold - nanoseconds since the epoch - is handed
+                    # over as the int it is)
+                    tr.update(s, int(p[2]))
+                else:
+                    tr.update(s, None if p[2] == 'N' else float(p[2]) / TIME_SCALE[0])
                 out.append('u+[%s %s' % (take(), state()))
             except ValueError:
                 out.append('u-[%s %s' % (take(), state()))
